@@ -1,7 +1,7 @@
 from vfw import Unit, Ob
 UNITS = [Unit('numcut', 'wrappers/num.cpp', cuts={'CUT_MF_F': r'10make_floatIfiE', 'CUT_MF_D': r'10make_floatIdiE'})]
 OBS = []
-for ln, tier in [(1, 'quick'), (2, 'quick'), (19, 'quick'), (20, 'quick'), (21, 'quick'), (3, 'thorough'), (10, 'thorough'), (18, 'thorough'), (22, 'thorough'), (24, 'thorough')]:
+for ln, tier in [(1, 'quick'), (2, 'quick'), (19, 'thorough'), (20, 'quick'), (21, 'thorough'), (3, 'thorough'), (10, 'thorough'), (18, 'thorough'), (22, 'thorough'), (24, 'thorough')]:
     for neg in (0, 1):
         OBS.append(Ob(['C12', 'C01', 'C07'], 'pnum_int_len%d_%s' % (ln, 'neg' if neg else 'pos'), 'numcut', 'harness/pnum.c', 'h_pnum_int', defs=['LEN=%d' % ln, 'NEG=%d' % neg],
                       unwind=ln + 3, backend='kissat', tier=tier, cap=400, hunwind=40,
